@@ -366,7 +366,15 @@ namespace vf
                 size_t eol = err.find('\n', pos);
                 std::string line = err.substr(pos + 4, (eol == std::string::npos ? err.size() : eol) - pos - 4);
                 size_t rp = line.find("/repo/src/ompl/");
-                if (rp != std::string::npos && line.compare(0, 3, "as<") != 0 && line.compare(0, 3, "as ") != 0)
+                // generic helpers are skipped so that the key names the interesting call site: the as<>() cast helper, and - for
+                // leak reports - the state/motion allocation functions themselves (the caller is what leaks)
+                bool generic = line.compare(0, 3, "as<") == 0 || line.compare(0, 3, "as ") == 0;
+                if (kind == "leak")
+                    for (const char *g : {"allocState", "cloneState", "allocStateComponents", "::Motion::Motion", "allocControl", "cloneControl", "::State::State",
+                                          "allocDefaultStateSampler", "allocStateSampler", "::Vertex::Vertex", "Configuration::Configuration"})
+                        if (line.substr(0, line.find(" /repo")).find(g) != std::string::npos)
+                            generic = true;
+                if (rp != std::string::npos && !generic)
                 {
                     std::string fn = line.substr(0, line.find_first_of("(<", 0));
                     while (!fn.empty() && fn.back() == ' ')
